@@ -81,7 +81,10 @@ def run(c):
         "2/3-cycles behind one or two packages, self-load, BUILD files loading each other, diamond) + seeded graphs of 9 kinds "
         "(chain, diamond, shared helper, n-cycle, self-load, cross-root, random DAG, random graph, several loaders of a module that "
         "cannot be fetched; 1-4 packages, <=9 modules). "
-        "Per graph: schedules supplied by the Lean model (shortest way into a deadlock of the model version the tree contains), "
+        "Reload sequences: Load, then the tree is edited (unchanged, a syntax error introduced and repaired, a module added, a load "
+        "removed, a cycle introduced and removed) and the SAME Project is reloaded 1-3 times, under the controller and free-running; "
+        "every (re)load is judged like a fresh Load of the tree as it is then and its trace must be a run of the model from the "
+        "initial state. Per graph: schedules supplied by the Lean model (shortest way into a deadlock of the model version the tree contains), "
         "uniform-random and PCT schedules under the hook-driven controller, and free-running loads with sleeping modules; every run is "
         "judged (ModuleLoading per label <=1; acyclic: Load ok, every reachable module exactly once, targets and flags = those of the "
         "reachable modules; cyclic: Load fails with a cyclic-dependency error; unfetchable module reachable: Load fails; Load must return) and every 2nd/3rd trace is validated "
@@ -133,7 +136,8 @@ def run(c):
     if drv:
         for stream, ps in sorted(pairs.items()):
             c.correspond(stream, drv, ps, nontrivial=lambda i, o: True)
-        if not pairs.get("loader.sched") or not pairs.get("loader.stress"):
+        if not pairs.get("loader.sched") or not pairs.get("loader.stress") or not pairs.get("loader.reload") \
+                or not pairs.get("loader.reload-stress"):
             c.broken.append("correspondence loader.*: the harness produced no traces (hooks missing?)")
         # observed outcomes of the small graphs are among the model's terminal outcomes
         bad, seen = [], 0
